@@ -4,17 +4,19 @@ CONSTANTS MaxStr, StrKinds
 
 \* ---- Str corpus (C17): all strings over a small alphabet, every cut of the declared size -----------------------
 StrAlphabet == {0, 97, 195, 169, 226, 130, 172, 240, 128, 255}     \* NUL, 'a', pieces of 2/3/4-byte sequences, invalid
-RECURSIVE StrsUpTo(_)
-StrsUpTo(n) == IF n = 0 THEN {<<>>} ELSE {<<>>} \cup { <<x>> \o r : x \in StrAlphabet, r \in StrsUpTo(n - 1) }
-StrParams == UNION { { [kind |-> k, s |-> s, m |-> m] : m \in 0..Len(s) } : k \in StrKinds, s \in StrsUpTo(MaxStr) }
+\* strings are enumerated by (length, code): digit i of the code (base 10) selects the i-th byte
+AlphaSeq == <<0, 97, 195, 169, 226, 130, 172, 240, 128, 255>>
+Pow10(n) == LET RECURSIVE P(_) P(i) == IF i = 0 THEN 1 ELSE 10 * P(i - 1) IN P(n)
+StrOf(len, code) == [i \in 1..len |-> AlphaSeq[((code \div Pow10(i - 1)) % 10) + 1]]
+StrParams == UNION { { [kind |-> k, len |-> n, code |-> cd, m |-> m] : k \in StrKinds, cd \in 0..(Pow10(n) - 1), m \in 0..n } : n \in 0..MaxStr }
 \* the tag declares base + m bytes; the rest of s lies in the padding / runs into the following bytes
 StrTag(p) ==
   LET K == InfoKind(p.kind)
       fixed == IF p.kind = "module" THEN <<1, 0, 0, 0, 2, 0, 0, 0>> ELSE <<>> IN
-  Pad8(U32Bytes(K.id) \o U32Bytes(K.base + p.m) \o fixed \o p.s)
+  Pad8(U32Bytes(K.id) \o U32Bytes(K.base + p.m) \o fixed \o StrOf(p.len, p.code))
 StrCase(p) ==
   LET body == StrTag(p) \o Pad8(Neighbour)  T == 8 + Len(body) + 8 IN
   [mem |-> U32Bytes(T) \o <<0, 0, 0, 0>> \o body \o EndTagBytes, al |-> 0,
    calls |-> <<[op |-> "load"], [op |-> "str", kind |-> p.kind], [op |-> "get", kind |-> p.kind]>>,
-   desc |-> [area |-> "str"] @@ p]
+   desc |-> [area |-> "str", s |-> StrOf(p.len, p.code)] @@ p]
 =============================================================================
